@@ -1097,6 +1097,8 @@ func (d *DotGit) incomingObjectPath(h plumbing.Hash) string {
 // lazy initialisation runs under sync.Once so concurrent callers cannot
 // race on the cached fields.
 func (d *DotGit) hasIncomingObjects() bool {
+	simhook.OnceEnter(&d.incomingOnce)
+	defer simhook.OnceExit(&d.incomingOnce)
 	d.incomingOnce.Do(func() {
 		directoryContents, err := d.fs.ReadDir(objectsPath)
 		if err == nil {
